@@ -9,6 +9,10 @@ pub struct Rec {
   pub note: Note,
   pub step: u64,
   pub vt: u64,
+  /// (iterator/stream pulls, tap calls) at delivery time, when the probe was
+  /// given the counters
+  pub pulls: usize,
+  pub taps: usize,
 }
 
 /// Callback run inside `next` (re-entrancy scenarios). Single-threaded engine:
@@ -20,23 +24,37 @@ unsafe impl Send for Hook {}
 pub struct Probe {
   pub log: Arc<Mutex<Vec<Rec>>>,
   pub hook: Option<Arc<Mutex<Hook>>>,
+  pub ctr: Option<crate::ast::Counters>,
 }
 
 impl Probe {
   pub fn new() -> Probe {
-    Probe { log: Arc::new(Mutex::new(Vec::new())), hook: None }
+    Probe { log: Arc::new(Mutex::new(Vec::new())), hook: None, ctr: None }
   }
   pub fn with_hook(f: impl FnMut(&V) + 'static) -> Probe {
     Probe {
       log: Arc::new(Mutex::new(Vec::new())),
       hook: Some(Arc::new(Mutex::new(Hook(Box::new(f))))),
+      ctr: None,
     }
   }
+  pub fn with_counters(c: &crate::ast::Counters) -> Probe {
+    Probe { log: Arc::new(Mutex::new(Vec::new())), hook: None, ctr: Some(c.clone()) }
+  }
   fn push(&self, note: Note) {
+    let (pulls, taps) = match &self.ctr {
+      Some(c) => (
+        crate::ast::Counters::get(&c.pulls),
+        crate::ast::Counters::get(&c.taps),
+      ),
+      None => (0, 0),
+    };
     self.log.lock().unwrap().push(Rec {
       note,
       step: world::step(),
       vt: world::now(),
+      pulls,
+      taps,
     });
   }
   pub fn notes(&self) -> Vec<Note> {
